@@ -8,4 +8,21 @@ MenuDef == <<
   [pats |-> <<<<1, 0, 1>>, <<0, 1>>, <<1>>>>, kind |-> "STD"] >>
 HaysQuick == {<<0, 1, 0, 1>>, <<1, 1, 0, 1, 1, 0>>, <<>>}
 HaysDef == {<<0, 1, 0, 1>>, <<0, 0, 1, 0, 0>>, <<1, 1, 0, 1, 1, 0>>, <<>>, <<1, 0, 1, 0, 1>>}
+
+\* Random walks (Replay_Api.cfg): TLC's simulator picks uniformly among the successor states, so the action
+\* families with many parameter values (CloneFrom over pairs, Drain over modes) would crowd out next() calls.
+\* SimNext is Next with those parameters thinned out (the mode follows the step number, clone_from is enabled
+\* on every fourth step only); every behaviour of SimSpec is a behaviour of Spec.
+ModeAt(n) == <<"fold", "for_each", "count", "last">>[(n % 4) + 1]
+SimNext == \/ \E k \in 1..Len(Menu) : Build(k)
+           \/ \E h \in 1..Len(autos) : RoundTrip(h)
+           \/ \E h \in 1..Len(autos) : nact % 4 = 1 /\ Clone(h)
+           \/ \E d, s \in 1..Len(autos) : nact % 4 = 3 /\ s = (d % Len(autos)) + 1 /\ CloneFrom(d, s)
+           \/ \E h \in 1..Len(autos), m \in {"ov", "find", "nosuf", "lm"}, e \in {"slice", "iter", "stream"},
+                 hay \in Hays : NewIterator(h, m, e, hay)
+           \/ \E i \in 1..Len(iters) : NextOn(i)
+           \/ \E i \in 1..Len(iters) : NextOn(i)
+           \/ \E i \in 1..Len(iters) : nact % 3 = 2 /\ Drain(i, ModeAt(nact + i))
+           \/ \E i \in 1..Len(iters) : \E n \in 1..Len(iters[i].hay) : Arrive(i, n)
+SimSpec == Init /\ [][SimNext]_vars
 =============================================================================
